@@ -550,6 +550,17 @@ class Structurer:
             if isinstance(st, (ast.For, ast.While)):
                 st.body = self.block(st.body, False, True) or [ast.Pass()]
                 st.orelse = self.block(st.orelse, False)
+                # `while True: if X: break; BODY`  ->  `while not X: BODY`   (no else clause; repeated for several leading guards)
+                while isinstance(st, ast.While) and not st.orelse and len(st.body) >= 2 and isinstance(st.body[0], ast.If) \
+                        and not st.body[0].orelse and len(st.body[0].body) == 1 and isinstance(st.body[0].body[0], ast.Break) \
+                        and _first_walrus(st.body[0].test) is None and not isinstance(st.body[0].test, ast.NamedExpr):
+                    guard = negate(st.body[0].test)
+                    if isinstance(st.test, ast.Constant) and st.test.value is True:
+                        st.test = guard
+                    else:
+                        st.test = _and(st.test, guard)
+                    st.body = st.body[1:]
+                    self.changed = True
                 # S6 for x in it: yield x  -> yield from it
                 if isinstance(st, ast.For) and not st.orelse and len(st.body) == 1 and isinstance(st.body[0], ast.Expr) \
                         and isinstance(st.body[0].value, ast.Yield) and isinstance(st.target, ast.Name) \
@@ -1337,6 +1348,21 @@ def helper_table(module: ast.Module, cls: Optional[ast.ClassDef]) -> dict[str, t
     kind 'func' (module level, called as `_h(..)`), 'method' (`self._h(..)` / `cls._h(..)` for class/static methods), 'prop' (`self._h`)"""
     out: dict[str, tuple[str, ast.FunctionDef]] = {}
 
+    def ok_tail(f: ast.FunctionDef) -> bool:
+        """may be inlined where its result is returned at once (`return helper(..)`): any number of returns is fine then"""
+        if not f.name.startswith('_') or f.name.startswith('__'):
+            return False
+        a = f.args
+        if a.vararg or a.kwarg or a.posonlyargs:
+            return False
+        if any(isinstance(x, (ast.Yield, ast.YieldFrom, ast.Await, ast.Global, ast.Nonlocal, ast.FunctionDef, ast.ClassDef)) for x in _own_nodes(f)):
+            return False
+        if any(isinstance(x, ast.Name) and x.id == f.name for x in _own_nodes(f)):
+            return False
+        if any(isinstance(x, ast.Attribute) and x.attr == f.name for x in _own_nodes(f)):
+            return False
+        return True
+
     def ok(f: ast.FunctionDef) -> bool:
         if not f.name.startswith('_') or f.name.startswith('__'):
             return False
@@ -1358,8 +1384,21 @@ def helper_table(module: ast.Module, cls: Optional[ast.ClassDef]) -> dict[str, t
     for s in module.body:
         if isinstance(s, ast.FunctionDef) and ok(s) and not s.decorator_list:
             out[s.name] = ('func', s)
+        elif isinstance(s, ast.FunctionDef) and ok_tail(s) and not s.decorator_list:
+            out[s.name] = ('func-tail', s)
     if cls is not None:
         out['__class__'] = ('name', cls.name)          # type: ignore[assignment]
+        for s in cls.body:
+            if isinstance(s, ast.FunctionDef) and s.name.startswith('_') and not s.name.startswith('__') \
+                    and [ast.unparse(d) for d in s.decorator_list] == ['staticmethod'] and not ok(s):
+                out[s.name] = ('static-any', s)
+        for s in cls.body:
+            if isinstance(s, ast.FunctionDef) and not ok(s) and ok_tail(s) and s.name not in out:
+                decos = [ast.unparse(d) for d in s.decorator_list]
+                if not decos:
+                    out[s.name] = ('method-tail', s)
+                elif decos == ['staticmethod']:
+                    out[s.name] = ('staticmethod-tail', s)
         for s in cls.body:
             if isinstance(s, ast.FunctionDef) and ok(s):
                 decos = [ast.unparse(d) for d in s.decorator_list]
@@ -1403,23 +1442,26 @@ def inline_helpers(fn: ast.FunctionDef, table: dict[str, tuple[str, ast.Function
     clsname = table.get('__class__', ('', None))[1] or '<none>'      # type: ignore[assignment]
     counter = [0]
 
-    def callee(c: ast.Call) -> Optional[tuple[str, ast.FunctionDef, list[ast.AST]]]:
+    def callee(c: ast.Call, tail: bool = False) -> Optional[tuple[str, ast.FunctionDef, list[ast.AST]]]:
         if c.keywords and any(k.arg is None for k in c.keywords):
             return None
+        kinds_f = ('func', 'func-tail') if tail else ('func',)
+        kinds_m = ('method', 'staticmethod', 'classmethod', 'method-tail', 'staticmethod-tail') if tail else ('method', 'staticmethod', 'classmethod')
         if any(isinstance(a, ast.Starred) for a in c.args):
             return None
         f = c.func
-        if isinstance(f, ast.Name) and f.id in table and table[f.id][0] == 'func':
+        if isinstance(f, ast.Name) and f.id in table and (table[f.id][0] in kinds_f or table[f.id][0] in (
+                ('staticmethod', 'staticmethod-tail') if tail else ('staticmethod',))):
             h = table[f.id][1]
             params = [a.arg for a in h.args.args]
             recv: list[ast.AST] = []
         elif isinstance(f, ast.Attribute) and isinstance(f.value, ast.Name) and f.value.id in (selfname, 'cls', 'self', clsname) and f.attr in table \
-                and table[f.attr][0] in ('method', 'staticmethod', 'classmethod') and f.attr != fn.name:
+                and table[f.attr][0] in kinds_m and f.attr != fn.name:
             kind, h = table[f.attr]
             params = [a.arg for a in h.args.args]
-            if f.value.id == clsname and kind != 'staticmethod':
+            if f.value.id == clsname and not kind.startswith('staticmethod'):
                 return None
-            recv = [] if kind == 'staticmethod' else [f.value]
+            recv = [] if kind.startswith('staticmethod') else [f.value]
         else:
             return None
         args: list[ast.AST] = list(recv) + list(c.args)
@@ -1443,6 +1485,26 @@ def inline_helpers(fn: ast.FunctionDef, table: dict[str, tuple[str, ast.Function
             return None
         return h.name, h, args
 
+    def expand_tail(h: ast.FunctionDef, args: list[ast.AST], at: ast.stmt) -> list[ast.stmt]:
+        """`return helper(args)`: the helper's body stands in for the statement, its returns become the caller's"""
+        counter[0] += 1
+        tag = f'hlp{counter[0]}_'
+        params = [a.arg for a in h.args.args] + [a.arg for a in h.args.kwonlyargs]
+        body = [copy.deepcopy(s) for s in h.body if not (isinstance(s, ast.Expr) and isinstance(s.value, ast.Constant))]
+        locals_ = {x.id for s in body for x in ast.walk(s) if isinstance(x, ast.Name) and isinstance(x.ctx, (ast.Store, ast.Del))}
+        mapping = {n: tag + n for n in set(params) | locals_}
+        pre: list[ast.stmt] = []
+        for p_, a_ in zip(params, args):
+            if isinstance(a_, ast.Name) and p_ not in locals_:
+                mapping[p_] = a_.id
+            else:
+                pre.append(ast.copy_location(ast.Assign(targets=[ast.Name(id=mapping[p_], ctx=ast.Store())], value=copy.deepcopy(a_)), at))
+        r = _Rename(mapping)
+        body = [r.visit(s) for s in body]
+        if not terminates(body):
+            body.append(ast.copy_location(ast.Return(value=None), at))
+        return pre + body
+
     def expand(h: ast.FunctionDef, args: list[ast.AST], result: Optional[ast.AST], at: ast.stmt) -> Optional[list[ast.stmt]]:
         counter[0] += 1
         tag = f'hlp{counter[0]}_'
@@ -1455,7 +1517,7 @@ def inline_helpers(fn: ast.FunctionDef, table: dict[str, tuple[str, ast.Function
             if isinstance(a_, ast.Name) and p_ not in locals_:
                 mapping[p_] = a_.id                        # a plain name argument that the helper never rebinds: use it directly
             else:
-                pre.append(ast.copy_location(ast.Assign(targets=[ast.Name(id=mapping[p_], ctx=ast.Store())], value=a_), at))
+                pre.append(ast.copy_location(ast.Assign(targets=[ast.Name(id=mapping[p_], ctx=ast.Store())], value=copy.deepcopy(a_)), at))
         r = _Rename(mapping)
         body = [r.visit(s) for s in body]
         ret = None
@@ -1504,6 +1566,11 @@ def inline_helpers(fn: ast.FunctionDef, table: dict[str, tuple[str, ast.Function
                     c.args[0] = ast.copy_location(ast.Name(id=tmp, ctx=ast.Load()), c.args[0])
                     out.append(st)
                     continue
+            if c is not None and isinstance(st, ast.Return) and callee(c) is None:
+                hit_t = callee(c, tail=True)
+                if hit_t is not None:
+                    out.extend(expand_tail(hit_t[1], hit_t[2], st))
+                    continue
             if c is not None:
                 hit = callee(c)
                 if hit is not None:
@@ -1532,6 +1599,20 @@ def inline_helpers(fn: ast.FunctionDef, table: dict[str, tuple[str, ast.Function
                 e = _SubstName(p_, a_).visit(e)
             return ast.copy_location(e, n)
     fn = _Expr().visit(fn)
+
+    class _Static(ast.NodeTransformer):
+        # a private static method is a plain function: `self._h(..)` / `Cls._h(..)` / `cls._h(..)` -> `_h(..)`, so that moving a private
+        # function between module level and a class (as a staticmethod) does not change the form of its callers
+        def visit_Call(self, n: ast.Call) -> ast.AST:
+            self.generic_visit(n)
+            f = n.func
+            if isinstance(f, ast.Attribute) and isinstance(f.value, ast.Name) and f.value.id in (selfname, 'self', 'cls', clsname) \
+                    and f.attr in static_names:
+                n.func = ast.copy_location(ast.Name(id=f.attr, ctx=ast.Load()), f)
+            return n
+    static_names = {k for k, v in table.items() if v[0] in ('staticmethod', 'static-any')}
+    if static_names:
+        fn = _Static().visit(fn)
     fn = _InlineProps(table, selfname).visit(fn)
     ast.fix_missing_locations(fn)
     return fn
